@@ -677,7 +677,8 @@ THEOREM_CORPUS = [
     (_PX + b'if header :bogus "a" "b" { } }', 56, 6), (_PX + b'if header :regex "a" "b" { } }', 56, 6),
     (_PX + b'% keep;', 46, None), (_PX + b'if size :over 100K stop; }', 65, 4),
     (_PX + b'if anyof (foo, true) { } }', 56, 3), (_PX + b'if not keep { } }', 53, 4), (_PX + b'if not "x" { } }', 53, 3),
-    (_PX + b'if anyof (true true) { } }', 61, 4), (_PX + b'if anyof (true, foo) { } }', 62, 3), (_PX + b'if anyof (true,) { } }', 61, 1)]
+    (_PX + b'if anyof (true true) { } }', 61, 4), (_PX + b'if anyof (true, foo) { } }', 62, 3), (_PX + b'if anyof (true,) { } }', 61, 1),
+    (_PX + b'if header ["a" "b"] "x" { } }', 61, 3)]
 
 
 def check_C18(report, tier, seed, replay=None):
